@@ -120,27 +120,34 @@ theorem firstInOrder_congr (m1 m2 : α → Bool) (cs : List (List α)) (h : ∀ 
         rw [hg]; rfl
     rw [this, ih]
 
-theorem matchCase_typed_concrete (D : Decls) (b : Bool) (dyn : Option Dyn) (ty : TyRef) (h : concreteTy D ty = true) :
-    matchCaseY D true b dyn ty = matchG D (dynT dyn) ty := by
+/-- **`matchCase` (since 9f81224) on a clause type without methods** — a struct type, a pointer to
+    one, `nil`, `interface{}` — is the specification's test, whatever the static type of the operand
+    (empty or not), the representation of the value (wrapped or stored raw) and the form of the clause -/
+theorem matchCase_plain (F : Facts) (hC : F.caseUsesMatchCase = true) (D : Decls) (ts b : Bool) (dyn : Option Dyn)
+    (ty : TyRef) (h : plainTy D ty = true) :
+    matchCaseY F D ts b dyn ty = matchG D (dynT dyn) ty := by
+  unfold matchCaseY
+  rw [hC]
+  simp only [if_true]
   cases ty with
   | ptr t =>
     cases dyn with
-    | none => simp [matchCaseY, matchG, dynT]
+    | none => simp [matchCaseNewY, matchG, dynT]
     | some d =>
-      simp only [matchCaseY, matchG, dynT, Option.map_some, if_true]
+      simp only [matchCaseNewY, matchG, dynT, Option.map_some]
       rw [Bool.eq_iff_iff]
       simp [DynT.mk.injEq]
   | named t =>
-    have hi : isIfaceT D t = false := by simpa [concreteTy] using h
+    have hi : isIfaceT D t = false := by simpa [plainTy, concreteTy] using h
     cases dyn with
-    | none => simp [matchCaseY, matchG, dynT, hi]
+    | none => simp [matchCaseNewY, matchG, dynT, hi]
     | some d =>
-      simp only [matchCaseY, matchG, dynT, Option.map_some, hi, if_true]
+      simp only [matchCaseNewY, matchG, dynT, Option.map_some, hi]
       rw [Bool.eq_iff_iff]
       simp [DynT.mk.injEq]
-  | anon ms => simp [concreteTy] at h
-  | nil => simp [concreteTy] at h
-  | empty => simp [concreteTy] at h
+  | anon ms => simp [plainTy, concreteTy] at h
+  | nil => cases dyn <;> simp [matchCaseNewY, matchG, dynT]
+  | empty => cases dyn <;> simp [matchCaseNewY, matchG, dynT]
 
 /-- without the swap the pre-order pass leaves the clause list in source order -/
 theorem clauseOrder_noswap (cs : List (List α)) : clauseOrderY false cs = List.range cs.length := by
